@@ -2,6 +2,8 @@ package conc
 
 import (
 	"fmt"
+	"os"
+	"os/exec"
 	"runtime"
 	"strings"
 	"sync"
@@ -440,4 +442,90 @@ func ReproSorterRace() (bool, string) {
 		}
 	}
 	return false, "default sorters of [][]int from 8 goroutines sorted correctly (race reports, if any, are in the output)"
+}
+
+// ---- cold start: the first use of everything happens concurrently ----
+
+// ColdMain runs in a fresh child process (vcheck-race cold <a> <b> <g> <seed>):
+// g goroutines run the two families at once with NO sequential warm-up, so
+// lazily initialised shared state is first touched concurrently; the
+// references are computed afterwards.
+func ColdMain(args []string) int {
+	if len(args) != 4 {
+		return 2
+	}
+	var a, b, g int
+	var seed uint64
+	fmt.Sscan(args[0], &a)
+	fmt.Sscan(args[1], &b)
+	fmt.Sscan(args[2], &g)
+	fmt.Sscan(args[3], &seed)
+	col.VerifSetHook(nil)
+	fams := make([]family, g)
+	seeds := make([]uint64, g)
+	for i := range fams {
+		fams[i] = families[[]int{a, b}[i%2]]
+		seeds[i] = seed + uint64(i)*977
+	}
+	got := concurrently(g, func(i int) string { return fams[i].run(seeds[i]) })
+	for i := range fams {
+		ref, p := reference(fams[i], seeds[i])
+		if p != "" {
+			fmt.Printf("COLD-DIFF script %q panicked when run alone: %s\n", fams[i].name, p)
+			return 0
+		}
+		if got[i] != ref {
+			fmt.Printf("COLD-DIFF script %q (first use, concurrent with %q) gave %q, alone it gives %q\n", fams[i].name, fams[(i+1)%g].name, clipS(got[i], 200), clipS(ref, 200))
+			return 0
+		}
+	}
+	fmt.Println("COLD-OK")
+	return 0
+}
+
+// RunC19Cold spawns the cold-start child and reads its verdict and race reports.
+func RunC19Cold(c *core.Ctx, idx int) {
+	pairs := C19Pairs()
+	pr := pairs[idx%len(pairs)]
+	g := []int{2, 4, 8}[(idx/len(pairs))%3]
+	exe, _ := os.Executable()
+	cmd := exec.Command(exe, "cold", fmt.Sprint(pr[0]), fmt.Sprint(pr[1]), fmt.Sprint(g), fmt.Sprint(c.Rng.Uint64()%1000000))
+	cmd.Env = append(os.Environ(), "GORACE=halt_on_error=0")
+	out, _ := cmd.CombinedOutput()
+	s := string(out)
+	cs := map[string]any{"families": []string{families[pr[0]].name, families[pr[1]].name}, "goroutines": g}
+	switch {
+	case strings.Contains(s, "WARNING: DATA RACE"):
+		blk := s[strings.Index(s, "WARNING: DATA RACE"):]
+		// signature from the first repository frame
+		sig := "race/cold-start"
+		for _, line := range strings.Split(blk, "\n") {
+			t := strings.TrimSpace(line)
+			if strings.HasPrefix(t, core.RepoPrefix) {
+				fn := strings.TrimPrefix(t, core.RepoPrefix+"/")
+				if i := strings.Index(fn, "("); i > 0 && !strings.HasPrefix(fn, "(") {
+					fn = fn[:i]
+				}
+				sig += "/" + strings.NewReplacer("(*", "", ")", "").Replace(strings.SplitN(fn, "[", 2)[0])
+				break
+			}
+		}
+		if !strings.Contains(blk, core.RepoPrefix) {
+			c.Inconclusive("cold start: a race report without a repository frame (harness?)")
+			return
+		}
+		c.Violation(sig, "first use from several goroutines at once: "+clipS(blk, 1500), cs)
+	case strings.Contains(s, "fatal error:"):
+		c.Violation("cold-start/fatal-error", clipS(s[strings.Index(s, "fatal error:"):], 800), cs)
+	case strings.Contains(s, "COLD-DIFF"):
+		c.Violation("independence/transcript-differs/cold-start", clipS(s[strings.Index(s, "COLD-DIFF"):], 600), cs)
+	case strings.Contains(s, "COLD-OK"):
+		c.Cover("cold-start-runs")
+		c.Distinct(core.Mix(0xc01d, uint64(pr[0]), uint64(pr[1]), uint64(g)))
+		if c.WantSample("cold-start") {
+			c.Sample("cold-start", cs)
+		}
+	default:
+		c.Inconclusive("cold start child gave no verdict: " + clipS(s, 200))
+	}
 }
